@@ -240,6 +240,10 @@ fn encrypt(
     message_count: &mut u32,
     reader: bool,
 ) -> Result<Vec<u8>, aes_gcm::Error> {
+    if *message_count == u32::MAX {
+        // The 32-bit message counter is exhausted: refuse rather than overflow into a used IV.
+        return Err(aes_gcm::Error);
+    }
     let initialization_vector = get_initialization_vector(message_count, reader);
     let nonce = Nonce::from(initialization_vector);
     Aes256Gcm::new(session_key).encrypt(&nonce, plaintext)
@@ -267,6 +271,10 @@ fn decrypt(
     message_count: &mut u32,
     reader: bool,
 ) -> Result<Vec<u8>, aes_gcm::Error> {
+    if *message_count == u32::MAX {
+        // The 32-bit message counter is exhausted: refuse rather than overflow into a used IV.
+        return Err(aes_gcm::Error);
+    }
     let initialization_vector = get_initialization_vector(message_count, reader);
     let nonce = Nonce::from(initialization_vector);
     Aes256Gcm::new(session_key).decrypt(&nonce, ciphertext)
